@@ -74,7 +74,7 @@ static long run_workload (int format, int ch, int wl, int t, const MEMF *base, l
 		else
 		{	/* "data the I/O layer accepted before the failure is not corrupted by later calls": a model image of the audio is kept for the lossless 16-bit cases
 			** (base file, then every write applied at the position the library itself reports, with the count it returned) and compared with the finished file */
-			int model = (t == T_SHORT && vh_is_lossless_int (format) && vh_bits (format) >= 16 && fault_at > 0 && !persist && (kind == VF_ZERO || kind == VF_SHORT || kind == VF_SEEKFAIL) && g_fault2 == 0) ;
+			int model = (t == T_SHORT && vh_is_lossless_int (format) && vh_sample_granular (format) && (format & SF_FORMAT_TYPEMASK) != SF_FORMAT_PAF && (format & SF_FORMAT_TYPEMASK) != SF_FORMAT_SDS && vh_bits (format) >= 16 && fault_at > 0 && !persist && (kind == VF_ZERO || kind == VF_SHORT || kind == VF_SEEKFAIL) && g_fault2 == 0) ;
 			static short img [8192], wrsnap [2048] ; long imgF = 0, q ; int fired_in_write = 0, fired_in_seek = 0 ;
 			if (model) { SF_INFO bi ; MEMF bm = *base ; SNDFILE *b ; memset (&bi, 0, sizeof (bi)) ; bm.pos = 0 ; bm.fault_at = 0 ; bm.budget = 0 ; b = sf_open_virtual (&MVIO, SFM_READ, &bi, &bm) ; if (b && bi.frames * ch + 200 * ch < 8192) { imgF = (long) sf_readf_short (b, img, bi.frames) ; sf_close (b) ; } else { if (b) sf_close (b) ; model = 0 ; } }
 			vh_state (s, &st) ; r = vh_read_t (s, t, 0, buf, 50 * ch, ch) ; chk_count (s, "read", r, 50 * ch, ch, 1, &st) ;
